@@ -59,12 +59,16 @@ def plan(tier):
         "jail": True,
         "min_nontrivial": 100 if q else 1000,
         "required_counters": ["ops_compared", "trees_compared", "benign_ops_judged", "hostile_ops_judged",
-                              "twin_controls_run"],
+                              "twin_controls_run", "stateful_ops_judged", "stateful_queries_repeated_after_mutation",
+                              "sized_multibyte_writes", "sized_multibyte_files_prepared"],
         "rule": "case = random tree (<=~10 entries, depth<=3, files/dirs/symlinks/dangling links/hard links, names from "
                 "5 benign + 23 hostile classes) + sequence of path operations (first one enumerated over "
                 "operation x name class, the rest random); every operation is one judged execution; distinct = "
                 "distinct (operation+arguments, tree before it); all are non-trivial (the oracle compares return, "
-                "raise class and both trees).",
+                "raise class and both trees).  Every case runs on one of three vf-shell connectors (transferBufferSize "
+                "65536 / 4096 / 512) with multi-byte contents whose UTF-8 length is a multiple of that buffer -1/0/+1/+7.  "
+                "Every third case is a *stateful sequence* (plain names, one pair of trees, 6..15 ops, never re-prepared): "
+                "the same queries on the same paths before and after mutations made through other paths.",
         "exhaustive": False,
         "assumptions": [
             "names are single components without '/', NUL, CR/LF/TAB or consecutive blanks (the harness stream "
@@ -102,12 +106,22 @@ async def make_env(sh: Shard) -> Env:
     env.ctx = make_context(base, db="default")
     dm = env.ctx.deployment_manager
     await dm.deploy(DeploymentConfig(name="rem", type="vf-shell", config={}, external=False, lazy=False, workdir=base))
+    for b in G.BUFFERS[1:]:  # the same connector class with small transferBufferSize: chunk boundaries at small sizes
+        await dm.deploy(DeploymentConfig(name=f"rem{b}", type="vf-shell", config={"transferBufferSize": b}, external=False,
+                                         lazy=False, workdir=base))
     await dm.deploy(DeploymentConfig(name="__LOCAL__", type="local", config={}, external=True, lazy=False, workdir=base))
     env.conn = dm.get_connector("rem")
     env.rloc = next(iter((await env.conn.get_available_locations()).values())).location
     env.lloc = next(iter((await dm.get_connector("__LOCAL__").get_available_locations()).values())).location
     env.guard = SG.Guard(env.conn, run_cap=RUN_CAP)
     env.guard.count_runs()
+    env.remotes = {G.BUFFERS[0]: (env.conn, env.rloc, env.guard)}
+    for b in G.BUFFERS[1:]:
+        conn = dm.get_connector(f"rem{b}")
+        assert conn.transferBufferSize == b
+        guard = SG.Guard(conn, run_cap=RUN_CAP)
+        guard.count_runs()
+        env.remotes[b] = (conn, next(iter((await conn.get_available_locations()).values())).location, guard)
     return env
 
 
@@ -425,6 +439,11 @@ async def run_case(env: Env, sh: Shard, case: dict, is_twin: bool = False, want_
     for n in names:
         N.assert_safe(n)
     hostile = not all(N.is_benign(n) for n in names)
+    env.conn, env.rloc, env.guard = env.remotes[case.get("buf", G.BUFFERS[0])]
+    stateful = bool(case.get("stateful"))
+    for act in case["setup"]:
+        if act[0] == "file" and act[2].startswith("@@MB:"):
+            sh.count("sized_multibyte_files_prepared")
     env.case_no += 1
     base = os.path.join(sh.scratch, "cases", f"c{env.case_no:07d}")
     L, R = os.path.join(base, "L"), os.path.join(base, "R")
@@ -440,6 +459,8 @@ async def run_case(env: Env, sh: Shard, case: dict, is_twin: bool = False, want_
             rpre = T.snapshot(R)
             if rpre != cur:
                 sh.count("pre_state_drift_resynced")
+                if stateful:
+                    break
                 T.clone(L, R)
             facts = facts_of(L, op, names)
             lres = await local_op(env, L, op, names)
@@ -458,6 +479,13 @@ async def run_case(env: Env, sh: Shard, case: dict, is_twin: bool = False, want_
             sh.count("trees_compared")
             sh.count("hostile_ops_judged" if hostile else "benign_ops_judged")
             sh.count(f"op_{op['op']}")
+            if stateful:
+                sh.count("stateful_ops_judged")
+                if i > 0 and op["op"] in G.QUERY_OPS and any(o == op for o in case["ops"][:i]) \
+                        and any(o["op"] in G.MUTATING for o in case["ops"][:i]):
+                    sh.count("stateful_queries_repeated_after_mutation")
+            if op.get("data", "").startswith("@@MB:"):
+                sh.count("sized_multibyte_writes")
             sh.case(("op", op, names, digest(cur, 12)))
             if want_records:
                 records.append({"l": canon_outcome(op, lres, names), "r": canon_outcome(op, rres, names),
@@ -509,6 +537,13 @@ async def run_case(env: Env, sh: Shard, case: dict, is_twin: bool = False, want_
             report(sh, label, what, {"case": case, "step": i, "op": op, "facts": facts, "local": lres, "remote": rres,
                                        "tree_diff": ldiff, "stray": stray, "control": control, "is_twin": is_twin})
             sh.count("divergences")
+            if stateful:
+                # one pair of trees for the whole sequence: never re-prepared.  Go on only while both trees are equal
+                if not tree_ok:
+                    sh.count("stateful_sequences_stopped_at_tree_divergence")
+                    break
+                cur = lsnap
+                continue
             T.clone(L, R)
             cur = lsnap
     finally:
@@ -580,6 +615,27 @@ DIRECTED = [
         {"op": "walk", "path": "<0>", "top_down": True, "follow_symlinks": False}]),
     _d(["b[ab]c", "File1", "data01", "README"], [_D("<0>"), _F("<0>/<1>"), _D("<2>"), _F("<2>/<1>")],
        [{"op": "glob", "path": "<0>", "pattern": "*"}, {"op": "glob", "path": "<2>", "pattern": "*"}]),
+    # multi-byte contents around multiples of a small transferBufferSize (write_text / read_text / size / checksum)
+    dict(_d(_B, [_F("<0>", "@@MB:1537:2:1"), _F("<3>", "@@MB:1025:1:0")],
+            [{"op": "write_text", "path": "<1>", "data": "@@MB:1537:2:0"}, {"op": "write_text", "path": "<2>", "data": "@@MB:513:2:1"},
+             {"op": "write_text", "path": "w512", "data": "@@MB:512:1:0"}, {"op": "write_text", "path": "w511", "data": "@@MB:511:0:0"},
+             {"op": "read_text", "path": "<1>", "n": None}, {"op": "size", "path": "<1>"}, {"op": "checksum", "path": "<1>"},
+             {"op": "read_text", "path": "<0>", "n": None}, {"op": "checksum", "path": "<3>"}, {"op": "size", "path": ""}]), buf=512),
+    dict(_d(_B, [_F("<0>", "@@MB:8193:2:1")],
+            [{"op": "write_text", "path": "<1>", "data": "@@MB:12289:2:0"}, {"op": "write_text", "path": "<2>", "data": "@@MB:4097:1:1"},
+             {"op": "read_text", "path": "<1>", "n": None}, {"op": "checksum", "path": "<0>"}, {"op": "size", "path": "<1>"}]), buf=4096),
+    dict(_d(_B, [], [{"op": "write_text", "path": "<1>", "data": "@@MB:196609:2:0"}, {"op": "checksum", "path": "<1>"},
+                     {"op": "size", "path": "<1>"}]), buf=65536),
+    # stateful: the same queries before / after the watched path's meaning is changed through another path
+    dict(_d(_B, [_D("<0>"), _D("<0>/<1>"), _F("<0>/<1>/<2>", "one"), _D("<3>"), _D("<3>/<1>"), _F("<3>/<1>/<2>", "second content"),
+                 ["symlink", "lnkdir", "<0>", False], ["symlink", "lnkfile", "<0>/<1>/<2>", True], ["symlink", "lnk2", "lnkdir", False]],
+            [{"op": "resolve", "path": "lnkdir/<1>/<2>"}, {"op": "resolve", "path": "lnkfile"}, {"op": "resolve", "path": "lnk2/<1>"},
+             {"op": "read_text", "path": "lnkdir/<1>/<2>", "n": None}, {"op": "size", "path": "lnkfile"},
+             {"op": "rmtree", "path": "lnkdir"}, {"op": "symlink_to", "path": "lnkdir", "target": "<3>"},
+             {"op": "resolve", "path": "lnkdir/<1>/<2>"}, {"op": "resolve", "path": "lnk2/<1>"}, {"op": "read_text", "path": "lnkdir/<1>/<2>", "n": None},
+             {"op": "rmtree", "path": "<0>/<1>/<2>"}, {"op": "resolve", "path": "lnkfile"}, {"op": "exists", "path": "lnkfile"},
+             {"op": "resolve", "path": "<0>/<1>"}, {"op": "rmtree", "path": "<0>"}, {"op": "resolve", "path": "<0>/<1>"},
+             {"op": "is_dir", "path": "<0>/<1>"}]), stateful=True),
     _d(["a", "b", "data01", "README"], [_D("d"), ["rawlink", "d/<0>", "nope"], _F("d/<1>")],
        [{"op": "glob", "path": "d", "pattern": "*"}, {"op": "glob", "path": "d", "pattern": "b*"}, {"op": "glob", "path": "", "pattern": "*/*"}]),
 ]
@@ -595,6 +651,8 @@ def case_stream(sh: Shard):
                 continue
             rng = sh.rng("case", rnd, c, o)
             yield G.gen_case(rng, c, o, nops=rng.randint(3, sh.pick(7, 10)), big=sh.pick(0, 1 << 20))
+            if k % 3 == 0:
+                yield G.gen_stateful(sh.rng("stateful", rnd, k))
         rnd += 1
 
 
